@@ -30,7 +30,7 @@ package check
 //@ func EngineDependencies.ReadOnlyMapper
 //@   trusted
 //@   pure
-//@   ensures result != nil && result.ReadOnly
+//@   ensures result != nil && result.ReadOnly && result.D != nil
 
 //@ spec wfe(e *Engine) bool = e != nil && e.d != nil
 
@@ -239,7 +239,7 @@ package check
 //@ func handlerDependencies.ReadOnlyMapper
 //@   trusted
 //@   pure
-//@   ensures result != nil && result.ReadOnly
+//@   ensures result != nil && result.ReadOnly && result.D != nil
 //@ func handlerDependencies.PermissionEngine
 //@   trusted
 //@   pure
